@@ -15,7 +15,7 @@ from ..engine import emit, cfg as cfgmod, flow
 from ..engine import pattern as P
 from ..engine.facts import dotted, const, src, walk_func, enclosing_stmt, ancestors, str_value
 from . import skeletons as sk
-from .common import calls, stmt_nodes, contains, norm_successors, pn, access_paths, assigned_from, guards_of, arms, return_leaves, branch_paths
+from .common import calls, stmt_nodes, contains, norm_successors, pn, access_paths, assigned_from, guards_of, arms, return_leaves, branch_paths, keyed_values, resolve, resolve_deep
 
 
 @rule("C12.line-accounting", min_instances=6)
@@ -180,6 +180,17 @@ def source_recorded(ctx):
         ctx.ok("emit:codegen.write_render_callable#line>=1", db.where(wr), "TemplateNode line is %s" % ("0" if zero else "not the constant 0"))
 
 
+def _locator(db, outer_q):
+    """the function a warning region hands to _show_warnings_as: the one that decides where a warning is shown"""
+    outer = db.func(outer_q)
+    for c in walk_func(outer):
+        if isinstance(c, ast.Call) and dotted(c.func) == "_show_warnings_as" and len(c.args) == 1 and isinstance(c.args[0], ast.Name):
+            for s in walk_func(outer):
+                if isinstance(s, ast.FunctionDef) and s.name == c.args[0].id and s is not outer:
+                    return s
+    raise AnalysisError("%s: the function handed to _show_warnings_as was not found" % outer_q)
+
+
 @rule("C12.metadata", min_instances=7)
 def metadata(ctx):
     """module metadata: writer and readers agree on markers, keys and the index base of full_line_map"""
@@ -211,12 +222,27 @@ def metadata(ctx):
     ctx.require(rng, "full_line_map loop not found")
     r0 = rng[0]
     base = const(r0.args[0]) if len(r0.args) >= 2 else 0
-    ctx.check(len(r0.args) == 2 and P.has(rd, "$lm = $s['line_map']\n...\nfor $m in range($b, max($lm)):\n    ..."), "reader.range", db.where(r0), "full_line_map covers %s" % src(r0), "module lines %s .. max(line_map)-1" % base)
-    carry = P.has(rd, "for $m in range($_, $_):\n    if $m in $lm:\n        $c = $lm[$m]\n    $f.append($c)")
+    # the loop runs to max(<the line map with integer keys>): the map is read back from, or is what was stored under, 'line_map'
+    stored = [src(v_) for v_ in keyed_values(rd, "line_map")]
+    def _is_line_map(e_):
+        r_ = resolve(rd, e_)
+        return (isinstance(r_, ast.Subscript) and const(r_.slice) == "line_map") or src(e_) in stored or src(r_) in stored
+    loops = [l_ for l_ in walk_func(rd) if isinstance(l_, ast.For) and l_.iter is r0]
+    okr = len(r0.args) == 2 and bool(loops) and P.matches(r0.args[1], "max($lm)") and _is_line_map(r0.args[1].args[0])
+    ctx.check(okr, "reader.range", db.where(r0), "full_line_map covers %s" % src(r0), "module lines %s .. max(line_map)-1" % base)
+    carry = False
+    for l_ in loops:
+        env = {}
+        if P.matches(l_, "for $m in range($_, $_):\n    if $m in $lm:\n        $c = $lm[$m]\n    $f.append($c)", env) or P.matches(l_, "for $m in range($_, $_):\n    $c = $lm.get($m, $c)\n    $f.append($c)", env):
+            # the list filled is the one published as full_line_map
+            pub = [resolve(rd, v_) for v_ in keyed_values(rd, "full_line_map")]
+            fl_ = env["f"][1]
+            inits = [s_ for s_ in walk_func(rd) if isinstance(s_, ast.Assign) and any(src(t_) == src(fl_) for t_ in s_.targets)]
+            carry = _is_line_map(env["lm"][1]) and (any(src(v_) == src(fl_) for v_ in keyed_values(rd, "full_line_map")) or any(isinstance(t_, ast.Subscript) and const(t_.slice) == "full_line_map" for s_ in inits for t_ in s_.targets))
     ctx.check(carry, "reader.carry-forward", db.where(rd), "lines without an entry do not carry the previous template line forward", "carry forward")
     readers = []
     for q in ("exceptions.RichTraceback._init", "template._translate_module_warnings._locate"):
-        fn = db.func(q)
+        fn = db.func(q) if q.startswith("exceptions") else _locator(db, "template._translate_module_warnings")
         scope = [fn] + [a for a in ancestors(fn) if isinstance(a, ast.FunctionDef)]
         full = {t_.id for sc_ in scope for s_ in ast.walk(sc_) if isinstance(s_, ast.Assign) and any(isinstance(x_, ast.Subscript) and const(x_.slice) == "full_line_map" for x_ in ast.walk(s_.value))
                 for t_ in s_.targets if isinstance(t_, ast.Name)}
@@ -228,7 +254,7 @@ def metadata(ctx):
         ok = isinstance(n.slice, ast.BinOp) and isinstance(n.slice.op, ast.Sub) and isinstance(n.slice.left, ast.Name) and const(n.slice.right) == base
         ctx.check(ok, "reader.index:" + q, db.where(n), "%s indexes full_line_map with `%s` but the list starts at module line %s: every frame is mapped to a neighbouring line" % (q, src(n.slice), base), "index lineno - %s" % base)
     for q in ("exceptions.RichTraceback._init", "template._translate_module_warnings._locate"):
-        fn = db.func(q)
+        fn = db.func(q) if q.startswith("exceptions") else _locator(db, "template._translate_module_warnings")
         ctx.check("full_line_map=True" in src(fn) or "full_line_map" in src(fn), "reader.full:" + q, db.where(fn), "%s does not request the full line map" % q, "requests full_line_map")
 
 
@@ -278,7 +304,7 @@ def warning_regions(ctx):
     ctc = calls(cf, "_compile_text")
     ctx.check(bool(ctc), "from_file.memory-path", db.where(cf), "no in-memory compile path", "file without module directory goes through _compile_text")
     # the dropper tests the very filename the expression parser compiles under
-    dl = db.func("template._drop_expression_warnings._locate")
+    dl = _locator(db, "template._drop_expression_warnings")
     ctx.check("pyparser.EXPRESSION_FILENAME" in src(dl), "expr-filename.dropper", db.where(dl), "dropper does not test pyparser.EXPRESSION_FILENAME", "tests pyparser.EXPRESSION_FILENAME")
     pp = db.func("pyparser.parse")
     pc = [c for c in walk_func(pp) if isinstance(c, ast.Call) and (dotted(c.func) or "").endswith("parse")]
@@ -286,7 +312,7 @@ def warning_regions(ctx):
     au = db.func("_ast_util.parse")
     t = src(au)
     ctx.check(P.has(au, "compile($e, filename, $m, PyCF_ONLY_AST)"), "expr-filename.passed", db.where(au), "_ast_util.parse does not pass the filename to compile()", "filename passed to compile()")
-    tl = db.func("template._translate_module_warnings._locate")
+    tl = _locator(db, "template._translate_module_warnings")
     ctx.check(P.has(tl, "if $w != module_id:\n    return ($w, $l)"), "translate.passthrough", db.where(tl), "warnings of other files are not passed through unchanged", "other files unchanged")
     sw = db.func("template._show_warnings_as._show")
     swa = db.func("template._show_warnings_as")
